@@ -47,9 +47,11 @@ RULE = (
 ASSUMPTIONS = [
     'the version thresholds at which the six hand-written codecs carry '
     'optional fields (MapPacket 107/364/373/452, SpawnObjectPacket '
-    '49/100/458, FacePlayerPacket 353) are those of the protocol history '
-    'and are transcribed in this module; the ORDER of versions is taken '
-    'from minecraft.PROTOCOL_VERSION_INDICES',
+    '49/100/458, FacePlayerPacket 353; also JoinGamePacket 738 for the '
+    'hardcore bit and the 741 layout of MultiBlockChangePacket records for '
+    'the range of y) are those of the protocol history and are transcribed '
+    'in this module; the ORDER of versions is taken from '
+    'minecraft.PROTOCOL_VERSION_INDICES',
     'MapPacket offsets are enumerated in 0..127 only (the reader uses a '
     'signed and the writer an unsigned byte; the protocol never uses other '
     'values)',
@@ -510,7 +512,6 @@ def eq_vector(w, g):
         return False
 
 
-PROG_NAMES = None
 POSITION_PROGS = ('Position', 'Array(Byte,Array(VarInt,Position))')
 TRAILING = 'TrailingByteArray'
 
@@ -1008,6 +1009,10 @@ def instances(env, cls, thorough):
 # ---------------------------------------------------------------------------
 # the round trip
 
+SAMPLED = ('JoinGamePacket', 'PlayerListItemPacket', 'SpawnObjectPacket',
+           'ClientSettingsPacket')
+
+
 def short(v, n=160):
     r = repr(v)
     return r if len(r) <= n else r[:n] + '...(%d chars)' % len(r)
@@ -1136,6 +1141,10 @@ def roundtrip(ctx, env, cls, ident, inst, case, want_id=None,
             return fail('repr', 'repr() of the %s packet returned %r'
                         % (which, type(s)))
     ctx.outcome('ok')
+    if inst.label == 'base' and env.version == 757 and \
+            cls.__name__ in SAMPLED:
+        ctx.sample({'class': ident, 'version': env.version,
+                    'instance': describe(inst), 'payload': payload[:64]})
     return 'ok'
 
 
